@@ -108,10 +108,24 @@ fn one_world(out: &mut Out, r: &mut Rng, w: &SchemaWorld, chainy: bool, cname: &
         // up to 4 environments, sorted for determinism (hash-map order inside the schema)
         let mut keyed: Vec<(String, &RequestEnv<'_>)> = envs.iter().map(|e| (format!("{:?}|{:?}|{:?}", e.action_entity_uid().map(|u| u.to_string()), e.principal_entity_type().map(|t| t.to_string()), e.resource_entity_type().map(|t| t.to_string())), e)).collect();
         keyed.sort_by(|a, b| a.0.cmp(&b.0));
-        let k = keyed.len().min(4);
-        let start = r.below(keyed.len() as u64) as usize;
-        for j in 0..k {
-            let env = keyed[(start + j * (keyed.len() / k).max(1)) % keyed.len()].1;
+        // prefer the environments in which the condition is not typed False (up to 3 of them), plus one `Irrelevant` one
+        let (live, dead): (Vec<_>, Vec<_>) = keyed.iter().map(|x| x.1).partition(|env| {
+            !matches!(catch_unwind(AssertUnwindSafe(|| tc.typecheck_by_single_request_env(&t, env))), Ok(PolicyCheck::Irrelevant(ref errs, _)) if errs.is_empty())
+        });
+        let mut chosen: Vec<&RequestEnv<'_>> = Vec::new();
+        if !live.is_empty() {
+            let start = r.below(live.len());
+            for j in 0..live.len().min(3) {
+                chosen.push(live[(start + j) % live.len()]);
+            }
+        }
+        if !dead.is_empty() {
+            let start = r.below(dead.len());
+            for j in 0..dead.len().min(4 - chosen.len().min(3)) {
+                chosen.push(dead[(start + j) % dead.len()]);
+            }
+        }
+        for env in chosen {
             emit(out, &tc, &ssx, &t, env, &format!("{cname} [{kind}] {text}"));
         }
         out.sample(format!("[{kind}] {text}"));
